@@ -20,7 +20,11 @@ def plan(prop):
     bits = 16 if Q else 31
     kmax = 2 if Q else 3
     shapes = [(k, closed) for closed in (True, False) for k in range(0, kmax + 1)]
-    rates = co.RATE_VECTORS_QUICK if Q else co.RATE_VECTORS_THOROUGH
+    seed = int(os.environ.get('VERIF_SEED', '0') or 0)
+    # VERIF_SEED only picks one additional concrete cost-rate vector (the estimate is linear in the rates); solver verdicts
+    # over the symbolic inputs do not depend on it
+    seeded = (3 + seed % 5, 2 + seed % 3, 5 + seed % 7, 1 + seed % 4, 4 + seed % 2, 2 + seed % 6)
+    rates = (co.RATE_VECTORS_QUICK[:2] + [seeded]) if Q else (co.RATE_VECTORS_THOROUGH + [seeded])
     core = 'vrp-core'
     if prop in ('C06', 'C01'):
         for k, closed in shapes:
